@@ -160,7 +160,7 @@ class C13(Check):
                    'expected outputs come from fault-free executions of transformed pipelines (item absent / item replaced), i.e. the fault-free behaviour of map/filter/scan is trusted here and checked by C01/C09']
     ANCHORS = ['rxsci/operators/map.py', 'rxsci/operators/filter.py', 'rxsci/operators/scan.py', 'rxsci/operators/starmap.py',
                'rxsci/error/ignore.py', 'rxsci/error/map.py', 'rxsci/error/router.py', 'rxsci/operators/multiplex.py', 'rxsci/operators/group_by.py']
-    REQUIRED_TAGS = ['op=' + o for o in FAIL_OPS] + ['handler=' + h for h in HANDLERS] + ['top', 'group', 'all-fail', 'first-fails', 'last-fails', 'consecutive', 'no-fault', 'over-64-keys', 'drive=cold', 'drive=hot_errors_first', 'drive=hot_data_first']
+    REQUIRED_TAGS = ['op=' + o for o in FAIL_OPS] + ['handler=' + h for h in HANDLERS] + ['top', 'group', 'all-fail', 'first-fails', 'last-fails', 'consecutive', 'no-fault', 'over-64-keys', 'drive=cold', 'drive=hot_errors_first', 'drive=hot_data_first', 'no-handler-in-the-group-but-one-further-out']
     REQUIRED_OBSERVED = ['mux_errors_observed', 'dead_letters_compared', 'fatal_errors_observed', 'outputs_compared']
 
     def generate(self, rng, tier, shard, nshards):
@@ -177,8 +177,13 @@ class C13(Check):
                         idx += 1
                         if idx % nshards != shard:
                             continue
-                        yield {'op': op, 'handler': h, 'down': DOWNSTREAM[idx % len(DOWNSTREAM)], 'ctx': 'group' if (idx // 7) % 2 else 'top',
-                               'ngroups': 2 + idx % 2, 'n': n, 'F': F, 'perm_seed': idx, 'drive': DRIVES[(idx // 3) % len(DRIVES)]}
+                        c = {'op': op, 'handler': h, 'down': DOWNSTREAM[idx % len(DOWNSTREAM)], 'ctx': 'group' if (idx // 7) % 2 else 'top',
+                             'ngroups': 2 + idx % 2, 'n': n, 'F': F, 'perm_seed': idx, 'drive': DRIVES[(idx // 3) % len(DRIVES)]}
+                        if h == 'none' and c['ctx'] == 'group' and (idx // 14) % 2:
+                            # no handler inside the group, one FURTHER OUT in the parent pipeline (guarding another operator): the error is
+                            # unhandled where the group is demultiplexed and surfaces as on_error there - the outer handler never sees it
+                            c['outer_handler'] = ('ignore', 'error_map')[(idx // 28) % 2]
+                        yield c
         self.box_done = 1
 
     def _random(self, rng, tier):
@@ -196,9 +201,12 @@ class C13(Check):
                 continue
             n = rng.choice([8, 12, 20, 40])
             F = sorted(rng.sample(range(n), rng.choice([1, 2, n // 3, n // 2, n - 1, n])))
-            yield {'op': FAIL_OPS[j % len(FAIL_OPS)], 'handler': HANDLERS[(j // 5) % len(HANDLERS)], 'down': rng.choice(DOWNSTREAM),
-                   'ctx': rng.choice(['top', 'group']), 'ngroups': rng.randint(2, 4), 'n': n, 'F': F, 'perm_seed': rng.randrange(1 << 30),
-                   'drive': rng.choice(DRIVES)}
+            c = {'op': FAIL_OPS[j % len(FAIL_OPS)], 'handler': HANDLERS[(j // 5) % len(HANDLERS)], 'down': rng.choice(DOWNSTREAM),
+                 'ctx': rng.choice(['top', 'group']), 'ngroups': rng.randint(2, 4), 'n': n, 'F': F, 'perm_seed': rng.randrange(1 << 30),
+                 'drive': rng.choice(DRIVES)}
+            if c['handler'] == 'none' and c['ctx'] == 'group' and rng.random() < 0.5:
+                c['outer_handler'] = rng.choice(['ignore', 'error_map'])
+            yield c
 
     # ------------------------------------------------------------------
     _router = None
@@ -249,6 +257,10 @@ class C13(Check):
             gof = {i: g for i, g in enumerate(groups)}
             keyf = (lambda x: gof[item_id(x)])
             pipe = [rs.ops.group_by(keyf, ops_)]
+            if case.get('outer_handler') == 'ignore':
+                pipe.append(rs.error.ignore())
+            elif case.get('outer_handler') == 'error_map':
+                pipe.append(rs.error.map(g_err))
         else:
             pipe = ops_
         if drive == 'cold':
@@ -278,6 +290,8 @@ class C13(Check):
         items, groups = self._items(case)
         n = case['n']
         out.tags += ['op=' + op, 'handler=' + handler, case['ctx'], 'down=' + case['down']]
+        if case.get('outer_handler'):
+            out.tags.append('no-handler-in-the-group-but-one-further-out')
         if not F:
             out.tags.append('no-fault')
         else:
